@@ -28,7 +28,7 @@ DEADLINE = {"quick": 60, "thorough": 600}
 REQUIRED = {
     "visit:pre": 100, "visit:in": 100, "visit:post": 100, "visit:pre:stopped": 50, "visit:in:stopped": 50,
     "visit:post:stopped": 50, "query:find_id:hit": 20, "query:find_id:miss": 5, "query:get_sibling": 50,
-    "query:get_root_side": 50, "query:find_type": 20, "shape:one-child": 10,
+    "query:get_root_side": 50, "query:find_type": 20, "shape:one-child": 10, "mutation-histories": 50, "mutation:move": 50, "mutation:wrap": 50,
 }
 
 
@@ -109,6 +109,84 @@ def drive_tree(rec, root, kindname, rng, full_stops=True):
             sub.find_id("i1")
 
 
+def query_all(root, rng, expr):
+    """every look-up on every node of the tree (the monitors decide each call)"""
+    from mathy_core import expressions as E
+
+    nodes = S.nodes_preorder(root)
+    for x in nodes:
+        x.get_root()
+        if x.parent is not None:
+            x.get_root_side()
+        x.get_sibling()
+        x.get_children()
+        x.is_leaf()
+        for c in (x.left, x.right):
+            if c is not None:
+                x.get_side(c)
+    start = rng.choice(nodes)
+    for order in ("preorder", "inorder", "postorder"):
+        getattr(start, f"visit_{order}")(lambda n, d, data: None, rng.randrange(3), None)
+    if expr:
+        root.to_list(rng.choice(["preorder", "inorder", "postorder"]))
+        root.find_type(rng.choice([E.MathExpression, E.ConstantExpression, E.BinaryExpression]))
+        root.find_id(rng.choice(["i0", "i1", "nope"]))
+
+
+def mutation_history(rec, rng, fac, kn, steps=12):
+    """Look-ups must agree with the link structure *as it is now*: interleave queries with
+    structural mutations through the public API (rotate, re-parenting a subtree into another
+    tree, wrapping a root in a new parent, swapping children, unlinking), so that anything a
+    node remembered from an earlier call is stale."""
+    trees = [W9.build(W9.random_shape(rng, rng.randint(2, 9), 0.3), fac) for _ in range(2)]
+    for t in trees:
+        query_all(t, rng, kn == "expr")
+    for _ in range(steps):
+        op = rng.choice(["rotate", "move", "wrap", "swap", "detach"])
+        a = rng.choice(trees)
+        nodes = S.nodes_preorder(a)
+        n = rng.choice(nodes)
+        try:
+            if op == "rotate":
+                n.rotate()
+            elif op == "move":
+                b = trees[1] if a is trees[0] else trees[0]
+                target = rng.choice(S.nodes_preorder(S.root_of(b)))
+                if n.parent is not None:
+                    side = "left" if n.parent.left is n else "right"
+                    n.parent.set_side(None, side) if False else (n.parent.set_left(None) if side == "left" else n.parent.set_right(None))
+                    n.parent = None
+                    if target is not n and n not in S.nodes_preorder(S.root_of(target)):
+                        (target.set_left if rng.random() < 0.5 else target.set_right)(n)
+            elif op == "wrap":
+                r = S.root_of(n)
+                new = fac(r, None, 99) if rng.random() < 0.5 else fac(None, r, 99)
+            elif op == "swap":
+                l, r = n.left, n.right
+                n.set_left(r)
+                n.set_right(l)
+            elif op == "detach" and n.parent is not None:
+                if n.parent.left is n:
+                    n.parent.set_left(None, clear_old_child_parent=True)
+                else:
+                    n.parent.set_right(None, clear_old_child_parent=True)
+        except Exception:
+            pass
+        rec.arm("mutation:" + op)
+        roots = []
+        for t in trees:
+            for x in S.nodes_preorder(t):
+                r = S.root_of(x)
+                if not any(r is y for y in roots):
+                    roots.append(r)
+        trees = roots[:4] if roots else trees
+        for t in trees:
+            if not S.audit(t, expr=False):
+                query_all(t, rng, kn == "expr")
+    rec.arm("mutation-histories")
+    rec.nontrivial(("mutation-history", kn, steps, rng.random()))
+
+
 def run(rec, cfg):
     MT.attach_visits("C14")
     MT.attach_queries("C14")
@@ -143,6 +221,13 @@ def run(rec, cfg):
             drive_tree(rec, W9.build(s, f), kn, rng, full_stops=False)
         rec.arm("shapes:random-large")
         rec.sample({"shape": W9.shape_str(s)[:120], "nodes": W9.count(s), "height": W9.height(s)})
+    # queries interleaved with structural mutations (stale per-node state)
+    for i in range(cfg.scale(150, 3000)):
+        if cfg.out_of_time():
+            rec.truncated = True
+            break
+        kn = rng.choice(["raw", "expr"])
+        mutation_history(rec, rng, fac[kn], kn, steps=rng.randint(4, 16))
     # expression trees from the parser
     from mathy_core.parser import ExpressionParser
 
